@@ -357,7 +357,7 @@ fn query_storage_checks(ev: &mut Ev) {
 
 fn main() {
     let args = Args::parse("C13");
-    let n = args.budget(300, 10000);
+    let n = args.budget(300, 30000);
     let ev = run_sharded(&args, n, |case, ev, _log| {
         let f32_ = case % 6 == 5;
         match (case % 4, f32_) {
